@@ -848,6 +848,185 @@ fn dev_case(ctx: &mut Ctx, bytes: &[u8]) {
     });
 }
 
+
+// ------------------------------------------------------------------------------------------------
+// ScriptList::{index_for_tag, select}, ScriptTags::from_unicode
+
+const SCRIPT_TAGS: [&[u8; 4]; 12] = [b"DFLT", b"arab", b"cyrl", b"dflt", b"grek", b"latn", b"zzzz", b"    ", b"AAAA", b"thai", b"\xff\xff\xff\xff", b"\0\0\0\0"];
+
+fn tag32(t: &[u8; 4]) -> u32 {
+    u32::from_be_bytes(*t)
+}
+
+/// script list: `n` records (tag, offset); sorted or not; the offsets point behind the records
+fn script_list(rng: &mut Rng) -> B {
+    let n = rng.below(8) as usize;
+    let mut tags: Vec<u32> = (0..n).map(|_| tag32(*rng.pick(&SCRIPT_TAGS))).collect();
+    match rng.below(4) {
+        0 => {}
+        1 => {
+            tags.sort();
+        }
+        _ => {
+            tags.sort();
+            tags.dedup();
+        }
+    }
+    let mut b = B::new();
+    b.f16(tags.len() as u16);
+    for t in &tags {
+        b.u32(*t).f16(2 + 6 * tags.len() as u16);
+    }
+    // one empty Script table all records share
+    b.u16(0).u16(0);
+    b
+}
+
+fn slist_case(ctx: &mut Ctx, bytes: &[u8]) {
+    let mut ask_tags: Vec<u32> = SCRIPT_TAGS.iter().map(|t| tag32(t)).collect();
+    let n = r16(bytes, 0).unwrap_or(0) as usize;
+    for k in 0..n.min(4) {
+        if let Some(s) = bytes.get(2 + 6 * k..6 + 6 * k) {
+            let t = u32::from_be_bytes([s[0], s[1], s[2], s[3]]);
+            ask_tags.extend([t, t.wrapping_add(1), t.wrapping_sub(1)]);
+        }
+    }
+    let sel: Vec<u32> = match ctx.rng.below(5) {
+        0 => vec![],
+        1 => vec![tag32(b"qqqq"), tag32(b"thai"), tag32(b"arab")],
+        2 => vec![tag32(b"latn")],
+        3 => vec![tag32(b"zzzz"), tag32(b"AAAA")],
+        _ => (0..1 + ctx.rng.below(3)).map(|_| tag32(*ctx.rng.pick(&SCRIPT_TAGS))).collect(),
+    };
+    let req = format!("hl.slist {} {} | {}", hex(bytes), join(&ask_tags), join(&sel));
+    ask(ctx, req, bytes, |ctx| {
+        use read_fonts::tables::layout::ScriptList;
+        let sl = match ScriptList::read(FontData::new(bytes)) {
+            Err(e) => return err_str(&e),
+            Ok(s) => s,
+        };
+        let recs: Vec<u32> = sl.script_records().iter().map(|r| u32::from_be_bytes(r.script_tag().to_be_bytes())).collect();
+        let mut ix = vec![];
+        for t in &ask_tags {
+            let r = sl.index_for_tag(font_types::Tag::from_u32(*t));
+            // an index is only returned for a record with that tag
+            let ok = r.map(|i| recs.get(i as usize) == Some(t)).unwrap_or(true);
+            ctx.oracle("slist.index-has-tag", ok, || format!("index_for_tag({t:#x}) {}", hex(bytes)), || format!("{r:?}"));
+            ctx.count(match r {
+                Some(_) => "slist.index_for_tag.some",
+                None if recs.contains(t) => "slist.index_for_tag.missed-unsorted",
+                None => "slist.index_for_tag.none",
+            });
+            ix.push(r.map(|i| i.to_string()).unwrap_or("n".into()));
+        }
+        let tags: Vec<font_types::Tag> = sel.iter().map(|t| font_types::Tag::from_u32(*t)).collect();
+        let s = match sl.select(&tags) {
+            Some(s) => {
+                let t = u32::from_be_bytes(s.tag.to_be_bytes());
+                let ok = recs.get(s.index as usize) == Some(&t) && (s.is_fallback || sel.contains(&t));
+                ctx.oracle("slist.select-has-tag", ok, || format!("select({sel:x?}) {}", hex(bytes)), || format!("{s:?}"));
+                ctx.count(if s.is_fallback { "slist.select.fallback" } else { "slist.select.requested" });
+                format!("{} {} {}", t, s.index, s.is_fallback as u8)
+            }
+            None => {
+                ctx.count("slist.select.none");
+                "n".into()
+            }
+        };
+        format!("{} | {} | {}", recs.len(), join(&ix), s)
+    });
+}
+
+const LANG_TAGS: [&[u8; 4]; 7] = [b"DEU ", b"ENG ", b"TRK ", b"dflt", b"ZZZZ", b"AAA ", b"\xff\xff\xff\xff"];
+
+/// Script: default LangSys offset, `n` lang sys records (sorted or not) sharing one empty LangSys
+fn script_table(rng: &mut Rng) -> B {
+    let n = rng.below(7) as usize;
+    let mut tags: Vec<u32> = (0..n).map(|_| tag32(*rng.pick(&LANG_TAGS))).collect();
+    if rng.chance(3, 4) {
+        tags.sort();
+        if rng.chance(2, 3) {
+            tags.dedup();
+        }
+    }
+    let mut b = B::new();
+    let at = 4 + 6 * tags.len() as u16;
+    b.f16(if rng.chance(1, 2) { at } else { 0 }).f16(tags.len() as u16);
+    for t in &tags {
+        b.u32(*t).f16(at);
+    }
+    b.u16(0).u16(0xFFFF).u16(0);
+    b
+}
+
+fn script_case(ctx: &mut Ctx, bytes: &[u8]) {
+    let mut ask_tags: Vec<u32> = LANG_TAGS.iter().map(|t| tag32(t)).collect();
+    let n = r16(bytes, 2).unwrap_or(0) as usize;
+    for k in 0..n.min(4) {
+        if let Some(s) = bytes.get(4 + 6 * k..8 + 6 * k) {
+            let t = u32::from_be_bytes([s[0], s[1], s[2], s[3]]);
+            ask_tags.extend([t, t.wrapping_add(1), t.wrapping_sub(1)]);
+        }
+    }
+    let req = format!("hl.script {} {}", hex(bytes), join(&ask_tags));
+    ask(ctx, req, bytes, |ctx| {
+        use read_fonts::tables::layout::Script;
+        let sc = match Script::read(FontData::new(bytes)) {
+            Err(e) => return err_str(&e),
+            Ok(s) => s,
+        };
+        let recs: Vec<u32> = sc.lang_sys_records().iter().map(|r| u32::from_be_bytes(r.lang_sys_tag().to_be_bytes())).collect();
+        let mut ix = vec![];
+        for t in &ask_tags {
+            let r = sc.lang_sys_index_for_tag(font_types::Tag::from_u32(*t));
+            let ok = r.map(|i| recs.get(i as usize) == Some(t)).unwrap_or(true);
+            ctx.oracle("script.index-has-tag", ok, || format!("lang_sys_index_for_tag({t:#x}) {}", hex(bytes)), || format!("{r:?}"));
+            ctx.count(match r {
+                Some(_) => "script.lang_sys_index_for_tag.some",
+                None if recs.contains(t) => "script.lang_sys_index_for_tag.missed-unsorted",
+                None => "script.lang_sys_index_for_tag.none",
+            });
+            ix.push(r.map(|i| i.to_string()).unwrap_or("n".into()));
+        }
+        format!("{} | {}", recs.len(), join(&ix))
+    });
+}
+
+fn stags_cases(ctx: &mut Ctx) {
+    use read_fonts::tables::layout::{ScriptTags, UNICODE_TO_NEW_OPENTYPE_SCRIPT_TAGS};
+    let mut tags: Vec<[u8; 4]> = UNICODE_TO_NEW_OPENTYPE_SCRIPT_TAGS.iter().map(|e| *e.0).collect();
+    tags.extend([*b"Zmth", *b"Hira", *b"Kana", *b"Laoo", *b"Yiii", *b"Nkoo", *b"Vaii", *b"Latn", *b"    ", *b"~~~~", *b"Mymr", *b"Mymq", *b"Benf", *b"Bene", *b"\0\0\0\0", *b"\xff\xff\xff\xff", *b"@bcd", *b"[bcd", *b"zmth", *b"ZMTH"]);
+    // neighbours of the table keys (the binary search boundaries)
+    for e in UNICODE_TO_NEW_OPENTYPE_SCRIPT_TAGS.iter() {
+        let v = tag32(e.0);
+        tags.push(v.wrapping_add(1).to_be_bytes());
+        tags.push(v.wrapping_sub(1).to_be_bytes());
+    }
+    let k = if ctx.thorough { 1500 } else { 300 };
+    for _ in 0..k {
+        let mut t = [0u8; 4];
+        for x in t.iter_mut() {
+            *x = if ctx.rng.chance(1, 8) { ctx.rng.next() as u8 } else { 0x20 + ctx.rng.below(0x5F) as u8 };
+        }
+        tags.push(t);
+    }
+    for chunk in tags.chunks(8) {
+        let vals: Vec<u32> = chunk.iter().map(tag32).collect();
+        let req = format!("hl.stags {}", join(&vals));
+        ask(ctx, req, &[], |ctx| {
+            let mut out = vec![];
+            for t in chunk {
+                let st = ScriptTags::from_unicode(font_types::Tag::new(t));
+                let s = st.as_slice();
+                ctx.oracle("stags.len", (1..=3).contains(&s.len()) && &*st == s, || format!("from_unicode({t:?})"), || format!("{} tags", s.len()));
+                ctx.count(&format!("stags.len{}", s.len()));
+                out.push(s.iter().map(|t| u32::from_be_bytes(t.to_be_bytes()).to_string()).collect::<Vec<_>>().join(","));
+            }
+            join(&out)
+        });
+    }
+}
+
 // ------------------------------------------------------------------------------------------------
 
 pub fn run(ctx: &mut Ctx) {
@@ -902,6 +1081,20 @@ pub fn run(ctx: &mut Ctx) {
             }
         }
     }
+    // script lists and script tags
+    for _ in 0..12 * k {
+        let b = script_list(&mut ctx.rng);
+        for v in variants(&mut ctx.rng, &b, 3) {
+            slist_case(ctx, &v);
+        }
+    }
+    for _ in 0..8 * k {
+        let b = script_table(&mut ctx.rng);
+        for v in variants(&mut ctx.rng, &b, 3) {
+            script_case(ctx, &v);
+        }
+    }
+    stags_cases(ctx);
     // a few long tables: the full size range in every format (32768 words for 8 bit deltas is left to
     // the `layout` group; 2 bit deltas need 8192 words), hostile end < start with trailing data
     for (s, e, fmt) in [(0u16, 999u16, 1u16), (0, 499, 2), (0, 299, 3), (300, 0, 3)] {
